@@ -25,7 +25,8 @@ theorem strictInc_append (l : List Nat) (c : Nat) (h : strictInc l = true) (hb :
 /-- the invariant carried along a run; `seen` = timestamps offered so far -/
 structure Inv (w : WmStrategy) (seen : List Nat) (s : St) : Prop where
   maxTs : s.maxTs = maxList seen
-  wm : s.wm = wmOf w s.maxTs
+  wm : (∀ iv, w ≠ .periodic iv) → s.wm = wmOf w s.maxTs
+  wm_le : s.wm ≤ s.maxTs
   hist_inc : strictInc s.history = true
   hist_le : ∀ x ∈ s.history, x ≤ s.wm
   hist_pos : s.wm = 0 → s.history = []
@@ -37,9 +38,7 @@ theorem inv_init (w : WmStrategy) : Inv w [] init := by
   constructor <;> simp [init, maxList, strictInc]
   cases w <;> simp [wmOf]
 
-theorem wm_le_maxTs {w seen s} (h : Inv w seen s) : s.wm ≤ s.maxTs := by
-  have := h.wm
-  cases w <;> simp [wmOf] at this <;> omega
+theorem wm_le_maxTs {w seen s} (h : Inv w seen s) : s.wm ≤ s.maxTs := h.wm_le
 
 end C13
 
@@ -53,16 +52,16 @@ theorem step_late_inv {w l seen s e} (h : Inv w seen s) (hl : e.ts < s.wm) :
   have h1 := h.late; have h2 := h.total
   cases l with
   | drop =>
-    constructor <;> simp [handleLate, hmax, h.hist_inc] <;> first | exact h.wm | exact h.hist_le | exact h.hist_pos | exact h.hist_last | omega
+    constructor <;> simp [handleLate, hmax, h.hist_inc] <;> first | exact h.wm | exact h.wm_le | exact h.hist_le | exact h.hist_pos | exact h.hist_last | omega
   | allowed m =>
     unfold handleLate
     by_cases hc : s.wm - e.ts ≤ m
-    · constructor <;> simp [hc, hmax, h.hist_inc] <;> first | exact h.wm | exact h.hist_le | exact h.hist_pos | exact h.hist_last | omega
-    · constructor <;> simp [hc, hmax, h.hist_inc] <;> first | exact h.wm | exact h.hist_le | exact h.hist_pos | exact h.hist_last | omega
+    · constructor <;> simp [hc, hmax, h.hist_inc] <;> first | exact h.wm | exact h.wm_le | exact h.hist_le | exact h.hist_pos | exact h.hist_last | omega
+    · constructor <;> simp [hc, hmax, h.hist_inc] <;> first | exact h.wm | exact h.wm_le | exact h.hist_le | exact h.hist_pos | exact h.hist_last | omega
   | sideOutput =>
-    constructor <;> simp [handleLate, hmax, h.hist_inc] <;> first | exact h.wm | exact h.hist_le | exact h.hist_pos | exact h.hist_last | omega
+    constructor <;> simp [handleLate, hmax, h.hist_inc] <;> first | exact h.wm | exact h.wm_le | exact h.hist_le | exact h.hist_pos | exact h.hist_last | omega
   | recompute =>
-    constructor <;> simp [handleLate, hmax, h.hist_inc] <;> first | exact h.wm | exact h.hist_le | exact h.hist_pos | exact h.hist_last | omega
+    constructor <;> simp [handleLate, hmax, h.hist_inc] <;> first | exact h.wm | exact h.wm_le | exact h.hist_le | exact h.hist_pos | exact h.hist_last | omega
 
 end C13
 
@@ -76,33 +75,43 @@ theorem step_ontime_inv {w seen s e} (h : Inv w seen s) (hl : ¬ e.ts < s.wm) :
   have h1 := h.late; have h2 := h.total
   have hw := h.wm
   generalize hM : (if e.ts > s.maxTs then e.ts else s.maxTs) = M at hmaxeq
+  generalize hF : periodicFires w s.lastEm e.now = F
   have hMge : s.maxTs ≤ M := by rw [← hM]; split <;> omega
-  have hge : s.wm ≤ newWm w s.wm M := by unfold newWm; split <;> (try split) <;> omega
-  have hnew : newWm w s.wm M = wmOf w M := by
-    cases w <;> simp only [newWm, candidate, wmOf] at hw ⊢ <;> (try split) <;> omega
+  have hge : s.wm ≤ newWm w s.wm M F := by unfold newWm; split <;> (try split) <;> omega
+  have hle : newWm w s.wm M F ≤ M := by
+    cases w <;> simp only [newWm, candidate] <;> (repeat' split) <;> (try simp_all) <;> omega
+  have hnew : (∀ iv, w ≠ .periodic iv) → newWm w s.wm M F = wmOf w M := by
+    intro hnp
+    have hw' := hw hnp
+    cases w with
+    | periodic iv => exact absurd rfl (hnp iv)
+    | bounded d => simp only [newWm, candidate, wmOf] at hw' ⊢; split <;> omega
+    | monotonic => simp only [newWm, candidate, wmOf] at hw' ⊢; split <;> omega
+    | custom => simp only [newWm, candidate, wmOf] at hw' ⊢; omega
   constructor
   · simp [handleOnTime, hM, hmaxeq]
-  · simp only [handleOnTime, hM]; exact hnew
-  · simp only [handleOnTime, hM]
+  · simp only [handleOnTime, hM, hF]; exact hnew
+  · simp only [handleOnTime, hM, hF]; exact hle
+  · simp only [handleOnTime, hM, hF]
     split
     · exact strictInc_append _ _ h.hist_inc (fun x hx => by have := h.hist_le x hx; omega)
     · exact h.hist_inc
-  · simp only [handleOnTime, hM]
+  · simp only [handleOnTime, hM, hF]
     split
     · intro x hx
       rcases List.mem_append.mp hx with hx | hx
       · have := h.hist_le x hx; omega
       · simp at hx; omega
     · intro x hx; have := h.hist_le x hx; omega
-  · simp only [handleOnTime, hM]
+  · simp only [handleOnTime, hM, hF]
     intro h0
     have : s.wm = 0 := by omega
     rw [if_neg (by omega)]; exact h.hist_pos this
-  · simp only [handleOnTime, hM]
+  · simp only [handleOnTime, hM, hF]
     intro h0
     split
     · exact ⟨_, rfl⟩
-    · have : newWm w s.wm M = s.wm := by omega
+    · have : newWm w s.wm M F = s.wm := by omega
       rw [this] at h0 ⊢; exact h.hist_last h0
   · simp [handleOnTime]; omega
   · simp [handleOnTime]; omega
@@ -147,11 +156,26 @@ theorem step_ok {w l seen s e} (h : Inv w seen s) :
     · simp [handleOnTime]
     · simp [handleOnTime]
     · trivial
-    · rw [hwm', hmax']; simp
+    · -- the watermark clause: closed form, or (Periodic) unchanged / the largest timestamp seen
+      have hmaxTs : (handleOnTime w s e).maxTs = maxList (seen ++ [e.ts]) := hmax'
+      cases w with
+      | periodic iv =>
+        simp only [wmClause, Bool.or_eq_true, beq_iff_eq]
+        rw [← hmaxTs]
+        simp only [handleOnTime, newWm, candidate]
+        split
+        · rename_i c hc
+          split at hc
+          · simp only [Option.some.injEq] at hc; subst hc; have := h.wm_le; split <;> simp <;> omega
+          · simp at hc
+        · left; trivial
+      | bounded d => simp only [wmClause, beq_iff_eq]; rw [hwm' (by simp), hmax']
+      | monotonic => simp only [wmClause, beq_iff_eq]; rw [hwm' (by simp), hmax']
+      | custom => simp only [wmClause, beq_iff_eq]; rw [hwm' (by simp), hmax']
     · simp only [handleOnTime] at hge ⊢
-      by_cases hq : newWm w s.wm (if e.ts > s.maxTs then e.ts else s.maxTs) = s.wm
+      by_cases hq : newWm w s.wm (if e.ts > s.maxTs then e.ts else s.maxTs) (periodicFires w s.lastEm e.now) = s.wm
       · simp [hq]
-      · have : newWm w s.wm (if e.ts > s.maxTs then e.ts else s.maxTs) > s.wm := by omega
+      · have : newWm w s.wm (if e.ts > s.maxTs then e.ts else s.maxTs) (periodicFires w s.lastEm e.now) > s.wm := by omega
         simp [hq, this]
     · simp
     · simpa using hlate
